@@ -343,6 +343,19 @@ def _case(draw, maxdepth):
             if t == ["bool"]:
                 stages.append(["Select", p, e])
                 cur = t
+            elif (elem_of(t) is not None or cur == ["c", "Evt", []]) and draw(st.integers(0, 2)) > 0:
+                if elem_of(t) is None:
+                    e, t = ["call", ["var", p], "jets"], ["it", ["c", "Jet", []]]
+                # the same one level down: a Where on a collection INSIDE the lambda gets a non-boolean filter
+                q = draw(st.sampled_from(["a", "b", "j"]))
+                env2 = [(n, tt) for n, tt in env if n != q] + [(q, elem_of(t))]
+                fe, ft = draw(_expr(model, env2, draw(st.integers(1, 2))))
+                if ft == ["bool"]:
+                    fe, ft = ["num", "+", fe, ["const", "1", ["int"]]], ["int"]
+                tail = draw(st.sampled_from(["count", "first", "none"]))
+                body = ["whr", e, q, fe]
+                stages.append(["SelectBad", p, body if tail == "none" else [tail, body], ft])
+                break
             else:
                 stages.append(["WhereBad", p, e, t])  # non-boolean filter: must raise ValueError
                 break
@@ -642,15 +655,15 @@ def _check(case, ns, DS) -> Result:
         op, p, e = stage[0], stage[1], stage[2]
         lam = f"lambda {p}: {render(e)}"
         try:
-            if op == "WhereBad":
+            if op in ("WhereBad", "SelectBad"):
                 try:
-                    s.Where(lam)
+                    s.Where(lam) if op == "WhereBad" else s.Select(lam)
                 except ValueError:
-                    r.labels.append("non-bool-filter-refused")
+                    r.labels.append("non-bool-filter-refused" + (":nested" if op == "SelectBad" else ""))
                     return r
                 if stage[3] == ["any"]:
                     return r  # nothing is known about the filter's type: not asserted
-                return r.fail(f"Where accepted a filter of declared type {ann(stage[3])}: {lam}")
+                return r.fail(f"{'a nested ' if op == 'SelectBad' else ''}Where accepted a filter of declared type {ann(stage[3])}: {lam}")
             s = getattr(s, op)(lam)
         except Exception as ex:
             return r.fail(f"{op}({lam!r}) raised {type(ex).__name__}: {ex}; model {r.sample['model']} renamed {r.sample['class_renamed']}")
